@@ -409,7 +409,9 @@ func (f *frame) run(args []T, st0 *State, pc0 string) {
 		f.vals[p] = args[i]
 	}
 	in := map[*ssa.BasicBlock]map[*ssa.BasicBlock]edge{}
-	addEdge := func(from, to *ssa.BasicBlock, c string, st *State) {
+	latchChain := map[*ssa.BasicBlock]bool{}
+	var addEdge func(from, to *ssa.BasicBlock, c string, st *State)
+	addEdge = func(from, to *ssa.BasicBlock, c string, st *State) {
 		if c == "false" {
 			return
 		}
@@ -417,10 +419,46 @@ func (f *frame) run(args []T, st0 *State, pc0 string) {
 			f.backEdge(from, to, c, st)
 			return
 		}
+		if latchChain[to] {
+			// a join that only leads (straight-line) to the loop's back edge: executed once per
+			// incoming path, so that invariant preservation is decided path by path
+			f.block(to, c, st.clone(), addEdge)
+			return
+		}
 		if in[to] == nil {
 			in[to] = map[*ssa.BasicBlock]edge{}
 		}
 		in[to][from] = edge{c, st}
+	}
+	if f.top && g.spec != nil && g.spec.SplitLatch {
+		for _, b := range fn.Blocks {
+			if len(b.Preds) < 2 {
+				continue
+			}
+			// follow single-successor jumps; the chain must end in a back edge
+			cur, ok, steps := b, false, 0
+			for steps < 8 {
+				if len(cur.Succs) != 1 {
+					break
+				}
+				if _, isJump := cur.Instrs[len(cur.Instrs)-1].(*ssa.Jump); !isJump {
+					break
+				}
+				nx := cur.Succs[0]
+				if isBackEdge(cur, nx) {
+					ok = true
+					break
+				}
+				if len(nx.Preds) != 1 {
+					break
+				}
+				cur = nx
+				steps++
+			}
+			if ok && f.loops[b] == nil {
+				latchChain[b] = true
+			}
+		}
 	}
 	for _, b := range rpo(fn) {
 		var pc string
